@@ -24,17 +24,22 @@ class Binding:
 
 class ExprDoc:
     def __init__(self, rng, n_targets=3, types=None, hostile_strings=False, max_depth=4, kinds=None, profile="dynamic",
-                 void_path_hazard=False):
+                 void_path_hazard=False, cascade=False):
         self.rng = rng
         self.objects = [ge.ObjSpec(i, c) for i, c in SOURCES]
         self.targets = ["t%d" % k for k in range(n_targets)]
         self.features = set()
         self.bindings = []
         types = types or ge.VALUE_TYPES
+        bound = []   # (target id, property, type) bound so far: later targets may read them (acyclic by construction)
         for tg in self.targets:
-            env = ge.Env(self.objects, owner=ge.ObjSpec(tg, "VfWidget"), owner_free=OWNER_FREE)
+            env = ge.Env(self.objects, owner=ge.ObjSpec(tg, "VfWidget"), owner_free=OWNER_FREE,
+                         value_only=[x for x in bound if x[2] not in (ge.PTR, ge.SLIST)] if cascade else ())
             g = ge.Gen(rng, env, profile=profile, max_depth=max_depth, hostile_strings=hostile_strings, features=self.features)
             g.void_path_hazard = void_path_hazard
+            g.no_state_methods = cascade
+            if cascade:
+                g.chain_bias, g.chain_extra = 0.35, 1
             for t in types:
                 kind = rng.choice(kinds) if kinds else None
                 g.has_void_path = False
@@ -42,6 +47,7 @@ class ExprDoc:
                 src = ge.print_program(prog, rng)
                 self.bindings.append(Binding(tg, ge.TARGET_PROP[t], t, prog, src))
                 self.bindings[-1].ill_typed = g.has_void_path
+            bound += [(tg, ge.TARGET_PROP[t], t) for t in types]
         self.source = self.to_qml()
 
     def to_qml(self, skip=()):
@@ -289,6 +295,28 @@ struct QvmStates {
     }
 };
 
+inline void qvm_dump(std::map<std::string, QObject *> &objs) {
+    std::string s = "\"ev\":\"dump\",\"state\":{";
+    bool firsto = true;
+    for (auto &kv : objs) {
+        QObject *o = kv.second;
+        if (!o) continue;
+        std::string body;
+        if (auto *w = dynamic_cast<VfWidget *>(o)) {
+@VF_DUMP@
+        } else if (auto *w = dynamic_cast<QSpinBox *>(o)) {
+            body += "\"value\":" + qvm::show(w->m_value);
+        } else if (auto *w = dynamic_cast<QAbstractButton *>(o)) {
+            body += "\"checked\":" + qvm::show(w->m_checked);
+        } else if (auto *w = dynamic_cast<QLineEdit *>(o)) {
+            body += "\"text\":" + qvm::show(w->m_text);
+        } else continue;
+        s += (firsto ? "\"" : ",\"") + kv.first + "\":{" + body + "}";
+        firsto = false;
+    }
+    qvm::put(s + "}");
+}
+
 inline int qvm_run_eval_plan(std::map<std::string, QObject *> &objs, std::vector<std::function<std::string()>> &evals) {
     QvmStates st;
     if (!st.load("states.txt")) return 90;
@@ -336,4 +364,7 @@ def vfstate_header():
             L.append("        if (prop == \"%s\") { QStringList l; std::stringstream ss(val); std::string tok; while (std::getline(ss, tok, ';')) l.v.push_back(qvm_units(tok)); w->m_%s = l; return true; }" % (p, p))
             continue
         L.append("        if (prop == \"%s\") { w->m_%s = %s; return true; }" % (p, p, conv))
-    return VFSTATE_H.replace("@VF_FIELDS@", "\n".join(L))
+    D = []
+    for i, (p, t) in enumerate(VF_ALL):
+        D.append("            body += std::string(%s\"\\\"%s\\\":\") + qvm::show(w->m_%s);" % ("" if i == 0 else "\",\" ", p, p))
+    return VFSTATE_H.replace("@VF_FIELDS@", "\n".join(L)).replace("@VF_DUMP@", "\n".join(D))
